@@ -21,7 +21,7 @@ PROFILE_DYN = dict(call_dyn=30, call=8, get_item=10, del_item=4, set_value_dyn=6
 # deletion-heavy schedule (C13 in the ItemSpace world): several instances alive,
 # then members / instances / bases taken away
 PROFILE_DYN_DELETE = dict(PROFILE_DYN, get_item=16, del_item=8, del_cells=10, new_cells=6,
-                          set_formula=4, set_ref=5, remove_bases=3, add_bases=3, set_pf=2, del_space=1.5)
+                          set_formula=4, set_ref=5, remove_bases=6, add_bases=5, set_pf=2, del_space=2)
 PROFILES_DYN = {"dyn": PROFILE_DYN, "dyn-delete": PROFILE_DYN_DELETE}
 
 
@@ -425,9 +425,10 @@ class GenDyn(Gen):
 
     def mk_del_space(self):
         # the parametrised space itself goes away (late in a history: little is left afterwards)
-        if ["P"] not in self.mir["sp"]:
+        cand = [q for q in (["P"], ["B"], ["B"]) if q in self.mir["sp"]]   # (B: a base of P, P.C or R)
+        if not cand:
             return None
-        return {"op": "del_space", "p": ["P"]}
+        return {"op": "del_space", "p": self.rng.choice(cand)}
 
     def mk_add_bases(self):
         # B becomes a base of P, or of R (the space the nested instances P[i].Q[k] are built from)
@@ -459,6 +460,13 @@ class GenDyn(Gen):
             m["bases"][tp(op["s"])] += [list(b) for b in op["bs"]]
         elif k == "remove_bases":
             m["bases"][tp(op["s"])] = [b for b in m["bases"][tp(op["s"])] if b not in op["bs"]]
+        elif k == "del_space":
+            super().update(op, res, ev)
+            gone = list(op["p"])
+            for key_ in list(m["bases"]):
+                m["bases"][key_] = [b for b in m["bases"][key_] if b[:len(gone)] != gone]
+            for key_ in [x for x in m["pf"] if list(x[:len(gone)]) == gone]:
+                m["pf"].pop(key_, None)
         elif k == "new_space":
             m["sp"].append(list(op["p"]))
             for key_ in ("cells", "refs"):
